@@ -1,6 +1,7 @@
 import OpcuaModel.Base.Loop
 import OpcuaModel.Model.SrvWire
 import OpcuaModel.Model.SrvRobust
+import OpcuaModel.Model.SrvNotify
 /-
   Driver for C29 (state / request / outcome formats: Model/SrvWire.lean).
     step <state> | <tok> | <req…>            → <out> | <state'>
@@ -10,6 +11,10 @@ import OpcuaModel.Model.SrvRobust
     interval <int64 of time.Duration(ms)>    → subms | small | huge
     revise <ms>                              → revised publishing interval in ms
     signedchunk <chunkLen> <sigLen>          → <out>
+    notify <drained> <w>                     → served | blocked   (write number w of a node monitored by a subscription
+                                                whose goroutine stalled after receiving <drained> notifications)
+    notifyafterclose <drained> <w>           → served | blocked   (another client's request after w writes and the close of
+                                                the stalled connection)
     hang <cap> <respBytes> <n>               → served | blocked     (a reading client's request after n
                                                 responses of respBytes owed to a client that does not read)
 -/
@@ -41,6 +46,26 @@ def handle : List String → String
     match ms.toInt? with
     | some k => toString (reviseMs k)
     | none => "bad-op"
+  | ["notify", drained, writes] =>
+    -- a subscription whose goroutine received `drained` notifications and then stalled: is write number
+    -- `writes` of the monitored node (counted from 1) answered?
+    match drained.toNat?, writes.toNat? with
+    | some d, some w =>
+      let evs := List.replicate d Opcua.Notify.Ev.write ++ List.replicate d Opcua.Notify.Ev.drain ++ [Opcua.Notify.Ev.stall] ++
+        List.replicate (w - d) Opcua.Notify.Ev.write
+      match (Opcua.Notify.runN {} evs).2.getLast? with
+      | some true => "served"
+      | _ => "blocked"
+    | _, _ => "bad-op"
+  | ["notifyafterclose", drained, writes] =>
+    match drained.toNat?, writes.toNat? with
+    | some d, some w =>
+      let evs := List.replicate d Opcua.Notify.Ev.write ++ List.replicate d Opcua.Notify.Ev.drain ++ [Opcua.Notify.Ev.stall] ++
+        List.replicate (w - d) Opcua.Notify.Ev.write ++ [Opcua.Notify.Ev.connClosed, Opcua.Notify.Ev.request]
+      match (Opcua.Notify.runN {} evs).2.getLast? with
+      | some true => "served"
+      | _ => "blocked"
+    | _, _ => "bad-op"
   | ["signedchunk", l, s] =>
     match l.toNat?, s.toNat? with
     | some a, some b => showOut (signedChunkOutcome a b)
